@@ -65,6 +65,17 @@ class Prop(PropBase):
                     cfg.start, cfg.end = st, en
                     scn_all.append(scen.mixed_scenario(r2, self.L, t, f'c07_{t}_{r}_{"d" if dn else "n"}', cfg, malformed_p=0.05,
                                                        start_az=r2.choice([35900, 35990, 35700, 0, 10, 17990, None]), gap_p=0.02, difop_at=0))
+        # Bpearl installed upside down (DIFOP reversal flag), v3 and v4, with windows that are not symmetric about 0 deg and a
+        # non-zero horizontal calibration: the window applies to the mirrored, calibrated azimuth the point is placed at
+        for k in range(4 if tier == 'quick' else 16):
+            st, en = rng.choice([(3000, 12000), (30000, 4500), (0, 18000), (27000, 33000), (100, 99), (9000, 9001)])
+            seed = rng.randrange(1 << 30)
+            for dn in (0, 1):
+                import random
+                r2 = random.Random(seed)
+                cfg = scen.rand_cfg(r2, dense=dn, wait=1, start=st, end=en, min=0.0, max=0.0, pktcb=0)
+                scn_all.append(scen.mixed_scenario(r2, self.L, 'RSBP', f'c07_RSBP_rev_{k}_{"d" if dn else "n"}', cfg, malformed_p=0.0, badblk_p=0.0, gap_p=0.02, difop_at=0,
+                                                   bpv4=(k % 2 == 1), reversal=1, start_az=r2.choice([None, 2900, 11900, 35900]), step=r2.choice([None, 200, 2000]), npk=4))
         out.append(('drv', '\n'.join(scn_all) + '\n'))
         return out
 
